@@ -575,12 +575,15 @@ import re as _re
 _IDENT = _re.compile(r'^[A-Za-z_]\w*$')
 
 
-def py_json_path(values):
-    """the JSON path a sequence of keys / indexes denotes (harness re-statement, independent of SQLBuilder.eval_json_path)"""
+def py_json_path(values, dialect=None):
+    """the JSON path text a sequence of keys / indexes denotes in a dialect (harness re-statement, independent of eval_json_path):
+    `$.key[3]."quoted key"` in general, the text[] literal `{key,3,"quoted key"}` for PostgreSQL"""
+    if dialect == 'postgres':
+        return '{%s}' % ','.join(str(v) if isinstance(v, int) else v if _IDENT.match(v) else '"%s"' % v.replace('"', '\\"') for v in values)
     out = '$'
     for v in values:
         if isinstance(v, int): out += '[%d]' % v
-        elif _IDENT.match(v) and v.isascii(): out += '.' + v
+        elif _IDENT.match(v): out += '.' + v
         else: out += '."%s"' % v.replace('"', '\\"')
     return out
 
@@ -612,7 +615,7 @@ def statements(ctx, strings):
             # desc: tuple of ('p', var) / ('c', const); one composite parameter per distinct description
             cid = jids.setdefault(desc, 1000 + len(jids))
             jkeys[tuple((d[1], None, None) if d[0] == 'p' else d[1] for d in desc)] = cid
-            vals[cid] = py_json_path([vals[d[1]] if d[0] == 'p' else d[1] for d in desc])
+            vals[cid] = ('jpath', [vals[d[1]] if d[0] == 'p' else d[1] for d in desc])
             items.append(['JPATH'] + [['PARAM', (d[1], None, None)] if d[0] == 'p' else ['VALUE', d[1]] for d in desc])
             expected.append(vals[cid]); occ.append(cid)
         for _ in range(rng.choice([1, 2, 3, 5, 8, 12])):
@@ -644,10 +647,12 @@ def statements(ctx, strings):
         for style in STYLES:
             bname = rng.choice([n for n in builders if not (jids and n == 'oracle')])    # OraBuilder refuses parameters in JSON paths (TranslationError)
             B = builders[bname]
+            enc = lambda v: py_json_path(v[1], bname) if isinstance(v, tuple) and v and v[0] == 'jpath' else v
+            vals_b = {k: enc(v) for k, v in vals.items()}; expected_b = [enc(v) for v in expected]
             b = B(FakeProvider(style, '`' if bname == 'mysql' else '"'), ast)
-            args = b.adapter(vals)
+            args = b.adapter(vals)  # the real adapter evaluates the composite parameters itself
             phs = [str(x) for x in b.result if isinstance(x, Param)]
-            ctx.case(['statement', style, bname, occ, [repr(e)[:12] for e in expected]], kind='statement:' + style)
+            ctx.case(['statement', style, bname, occ, [repr(e)[:12] for e in expected_b]], kind='statement:' + style)
             ctx.count('statement:repeats' if len(set(occ)) < len(occ) else 'statement:no-repeats')
             if len(jids) > 1: ctx.count('statement:several-composite-params')
             # tie of the hypothesis of C06_make_param_cache on the real objects: the key under which make_param caches a composite
@@ -659,7 +664,7 @@ def statements(ctx, strings):
                         ctx.divergence('the cache key of a composite parameter does not contain every item of the path', [style, bname, repr(pk)], model=repr(full), impl=repr(pk))
             # model tie
             reqs.append({'op': 'params', 'style': style, 'occ': occ})
-            meta.append((style, bname, occ, phs, [jkeys.get(pk, pk[0]) if len(pk) != 3 or pk in jkeys or not (pk[1] is None and pk[2] is None) else pk[0] for pk in b.layout], args, dict(vals)))
+            meta.append((style, bname, occ, phs, [jkeys.get(pk, pk[0]) if len(pk) != 3 or pk in jkeys or not (pk[1] is None and pk[2] is None) else pk[0] for pk in b.layout], args, vals_b))
             # property oracle: execute on real SQLite the way a driver of this style would
             try:
                 with warnings.catch_warnings():
@@ -680,9 +685,9 @@ def statements(ctx, strings):
                 got = list(got[0]) if len(got) == 1 else got
             except Exception as e:
                 got = 'raised %s: %s' % (type(e).__name__, short(str(e), 80))
-            if got != expected:
+            if got != expected_b:
                 ctx.violation('a statement built for paramstyle %s does not return the supplied values (placeholders / literals mismatched)' % style,
-                              {'style': style, 'builder': bname, 'ast': repr(ast)[:600], 'sql': b.sql, 'args': repr(args)[:300]}, observed=repr(got)[:300], expected=repr(expected)[:300],
+                              {'style': style, 'builder': bname, 'ast': repr(ast)[:600], 'sql': b.sql, 'args': repr(args)[:300]}, observed=repr(got)[:300], expected=repr(expected_b)[:300],
                               key='statement:%s:%s' % (style, json.dumps(canon_occ(occ))))
     if ctx.driver.ok:
         for (style, bname, occ, phs, layout, args, vals), out in zip(meta, ctx.driver('C06', reqs)):
